@@ -472,6 +472,33 @@ func runAwsOps(root *Rng, n int, fleet bool, w io.Writer, stats map[string]int) 
 	}
 }
 
+// deleteLine calls the real DeleteNodes and emits the observation (used for follow-up operations of a sequence).
+func deleteLine(w io.Writer, ng cloudprovider.NodeGroup, rec *Recorder, pcfg PAwsCfg, pg map[string]interface{}, nodes []*v1.Node, seq int) {
+	pnodes := []PNode{}
+	for _, nd := range nodes {
+		pnodes = append(pnodes, protoNode(nd))
+	}
+	var derr error
+	o := map[string]interface{}{}
+	outcome := protect(func() error { derr = ng.DeleteNodes(nodes...); return nil })
+	switch {
+	case outcome != "ok":
+		o["outcome"] = outcome
+	case derr == nil:
+		o["outcome"] = "none"
+	default:
+		if _, ok := derr.(*cloudprovider.NodeNotInNodeGroup); ok {
+			o["outcome"] = "notInGroup"
+		} else {
+			o["outcome"] = "error"
+		}
+	}
+	o["targetAfter"] = ng.TargetSize()
+	o["j"] = nnEntries(rec.Entries)
+	emitLine(w, map[string]interface{}{"op": "awsop", "kind": "delete", "cfg": pcfg, "g": pg, "nodes": pnodes, "seq": seq,
+		"resps": nnResps(rec.Resps), "obs": o})
+}
+
 func awsOpCase(r *Rng, fleet bool, w io.Writer) string {
 	{
 		rec := &Recorder{}
@@ -555,7 +582,7 @@ func awsOpCase(r *Rng, fleet bool, w io.Writer) string {
 				}
 				g.Max = g.Desired + delta + int64(r.pickI(0, 0, 5, -1))
 				if fleetSeq {
-					g.Max = g.Desired + delta + 300 // room for the follow-up requests
+					g.Max = g.Desired + delta + int64(r.pickI(3, 25, 45, 300)) // room for the follow-up requests
 				}
 				rec.reset()
 				prov.Refresh()
@@ -657,15 +684,34 @@ func awsOpCase(r *Rng, fleet bool, w io.Writer) string {
 		line["seq"] = 0
 		emitLine(w, line)
 		if fleetSeq {
-			for seq := 1; seq <= 3; seq++ {
+			toBound := false
+			for seq := 1; seq <= 4; seq++ {
 				if o, _ := obs["outcome"].(string); o == "fatal:fleet-strikes" {
 					break
 				}
 				rec.reset()
+				if !toBound && r.chance(35) && len(g.Instances) > 0 {
+					// a removal first — AWS may reject the termination — and then a request that goes right up to the cloud maximum
+					if r.chance(70) {
+						rec.FailAt[0] = true
+					}
+					in := g.Instances[r.intn(len(g.Instances))]
+					nd := &v1.Node{ObjectMeta: metav1.ObjectMeta{Name: fmt.Sprintf("fs%d", seq)}, Spec: v1.NodeSpec{ProviderID: providerID(in.AZ, in.ID)}}
+					deleteLine(w, ng, rec, pcfg, pg, []*v1.Node{nd}, seq)
+					toBound = true
+					continue
+				}
 				sim.ec2.fleetMode = "ok"
 				sim.ec2.fleetSplit = r.pickI(1, 2)
 				sim.ec2.notReady = map[int]bool{}
 				d2 := int64(r.pickI(1, 2, 21, 41))
+				if toBound {
+					// what the controller's clamp would ask for: everything up to the maximum, as the provider reports it
+					if room := ng.MaxSize() - ng.TargetSize(); room > 0 {
+						d2 = room
+					}
+					toBound = false
+				}
 				if r.chance(80) {
 					rec.FailAt[2+r.intn(2)] = true // an AttachInstances call fails (calls: 0 CreateFleet, 1 status, 2.. attach)
 					if d2 <= 20 {
